@@ -5,10 +5,88 @@ use crate::infra::*;
 use pdatastructs::hyperloglog::HyperLogLog;
 use serde_json::{json, Value};
 
-pub const RULE: &str = "serde_json round trips for every precision with empty/sparse/dense/all-255/arbitrary registers and several hashers: equality, count(), and differential continuation (further adds and merges) of original vs deserialised; rejection: documents with b in {0..3,19,20,63,64,65,2^32,2^63,-1,4.5,\"4\"} x registers length in {0,1,2^b-1,2^b,2^b+1,2^(b-1),2^(b+1),2^20} varied independently, register values > 255, missing/duplicate/unknown fields, truncated text and random structural mutations; every document must fail to deserialise or yield 4<=b<=18 with exactly 2^b registers, after which boundary add_hashed/count/merge must return. non-trivial = corrupted document that deserialised to Err, or round trip of a non-empty sketch; distinct = document hashes";
+pub const RULE: &str = "serde_json round trips for every precision with empty/sparse/dense/all-255/arbitrary registers and several hashers (incl. BuildHasher types that serialise as null, a bare number or an array): equality, count(), and differential continuation (further adds and merges) of original vs deserialised; rejection: documents with b in {0..3,19,20,63,64,65,2^32,2^63,-1,4.5,\"4\"} x registers length in {0,1,2^b-1,2^b,2^b+1,2^(b-1),2^(b+1),2^20} varied independently, register values > 255, missing/duplicate/unknown fields, truncated text and random structural mutations; every document must fail to deserialise or yield 4<=b<=18 with exactly 2^b registers, after which boundary add_hashed/count/merge must return. non-trivial = corrupted document that deserialised to Err, or round trip of a non-empty sketch; distinct = document hashes";
 pub const ASSUMPTIONS: &[&str] = &["serde_json is the only serde format exercised"];
 
 type Hll = HyperLogLog<u64, CtlBuildHasher>;
+
+// Hashers whose serialised form is not a JSON object: a unit struct (null), a newtype around an
+// Option (null or a number) and a tuple struct (array). The sketch must survive whatever shape
+// its BuildHasher serialises to.
+use serde::{Deserialize, Serialize};
+use std::hash::{BuildHasher, Hasher};
+#[derive(Clone, Copy, PartialEq, Eq, Debug, Serialize, Deserialize)]
+struct UnitBh;
+#[derive(Clone, Copy, PartialEq, Eq, Debug, Serialize, Deserialize)]
+struct OptBh(Option<u64>);
+#[derive(Clone, Copy, PartialEq, Eq, Debug, Serialize, Deserialize)]
+struct PairBh(u64, u32);
+fn seeded(seed: u64) -> std::collections::hash_map::DefaultHasher {
+    let mut h = std::collections::hash_map::DefaultHasher::new();
+    h.write_u64(seed);
+    h
+}
+impl BuildHasher for UnitBh {
+    type Hasher = std::collections::hash_map::DefaultHasher;
+    fn build_hasher(&self) -> Self::Hasher {
+        seeded(0x51)
+    }
+}
+impl BuildHasher for OptBh {
+    type Hasher = std::collections::hash_map::DefaultHasher;
+    fn build_hasher(&self) -> Self::Hasher {
+        seeded(self.0.unwrap_or(7))
+    }
+}
+impl BuildHasher for PairBh {
+    type Hasher = std::collections::hash_map::DefaultHasher;
+    fn build_hasher(&self) -> Self::Hasher {
+        seeded(self.0 ^ self.1 as u64)
+    }
+}
+
+fn round_trip_generic<B>(b: usize, bh: B, shape: &str, r: &mut FastRng, rep: &mut Report)
+where
+    B: BuildHasher + Clone + Eq + std::fmt::Debug + Serialize + for<'de> Deserialize<'de> + std::panic::RefUnwindSafe,
+{
+    rep.evaluations += 1;
+    let res = guarded(|| -> Option<(String, String)> {
+        let mut orig: HyperLogLog<u64, B> = HyperLogLog::with_hash(b, bh.clone());
+        for _ in 0..(1usize << b) / 2 + 5 {
+            orig.add(&r.next());
+        }
+        let text = match serde_json::to_string(&orig) {
+            Ok(t) => t,
+            Err(e) => return Some(("C20/serialize-failed".into(), format!("{}", e))),
+        };
+        let mut de: HyperLogLog<u64, B> = match serde_json::from_str(&text) {
+            Ok(d) => d,
+            Err(e) => return Some(("C20/round-trip/deserialize-failed".into(), format!("own output rejected: {} (document ends ...{})", e, &text[text.len().saturating_sub(60)..]))),
+        };
+        if de != orig || de.b() != orig.b() || de.registers() != orig.registers() || de.buildhasher() != orig.buildhasher() || de.count() != orig.count() {
+            return Some(("C20/round-trip/not-equal".into(), "deserialised sketch != original".into()));
+        }
+        for step in 0..100 {
+            let k = r.next();
+            de.add(&k);
+            orig.add(&k);
+            if de != orig {
+                return Some(("C20/round-trip/continuation-diverges".into(), format!("after {} further adds the sketches differ", step + 1)));
+            }
+        }
+        None
+    });
+    match res {
+        Ok(None) => {
+            let mut h = CaseHash::new(shape);
+            h.push(b as u64);
+            rep.nontrivial(h.0);
+            rep.count("round_trips_with_non_object_hashers", 1);
+        }
+        Ok(Some((sig, w))) => rep.violation(sig, format!("hll(b={}, hasher serialising as {}): {}", b, shape, w), json!({"b": b, "hasher_shape": shape})),
+        Err(msg) => rep.violation(format!("C20/round-trip/panic/{}", panic_class(&msg)), format!("hll(b={}, hasher serialising as {}): panicked: {}", b, shape, msg), json!({"b": b, "hasher_shape": shape})),
+    }
+}
 
 fn boundary_adds() -> Vec<u64> {
     let mut v = vec![0u64, u64::MAX, 1, u64::MAX - 1];
@@ -186,6 +264,10 @@ pub fn run(ctx: &Ctx) -> Report {
                 h.add(&r.next());
             }
             round_trip(b, bh, h.registers().to_vec(), &mut r, rep, "added");
+            round_trip_generic(b, UnitBh, "null (unit struct)", &mut r, rep);
+            round_trip_generic(b, OptBh(None), "null (newtype of None)", &mut r, rep);
+            round_trip_generic(b, OptBh(Some(r.next())), "a number (newtype of Some)", &mut r, rep);
+            round_trip_generic(b, PairBh(r.next(), r.next() as u32), "an array (tuple struct)", &mut r, rep);
         } else if i < 15 + bs_bad.len() {
             // invalid b x lengths
             let bv = &bs_bad[i - 15];
